@@ -50,7 +50,11 @@ Failing(ev) ==
               /\ (ev.raised = "~") <=> (e.raisedAt = 0)
               /\ ev.nwarn = (IF ev.strict THEN 0 ELSE Len(e.failed))
          THEN <<>> ELSE <<"coll_steps">>)
-     \o (IF (okA /\ acc /\ ev.merged) => ev.fold_eq THEN <<>> ELSE <<"coll_fold">>)
+     \* C09: a collection the specification accepts is built (or refused by the library), never left without a
+     \* result by a foreign exception, and its merge is the hand fold
+     \o (IF /\ acc => ev.accepted \in {"ok", "InvalidMosCollection"}
+            /\ (okA /\ acc /\ ev.merged) => ev.fold_eq
+         THEN <<>> ELSE <<"coll_fold">>)
      \o (IF (okA /\ acc /\ ev.merged) => ev.completed = e.completed THEN <<>> ELSE <<"coll_completed">>)
      \o (IF ev.accepted \in {"ok", "InvalidMosCollection"}
             /\ ev.raised \in {"~", "MosMergeError", "MosCompletedMergeError"}
@@ -62,7 +66,7 @@ Failing(ev) ==
 RECURSIVE KindsStr(_)
 KindsStr(ds) == IF ds = <<>> THEN "" ELSE ds[1].kind \o (IF ds[1].roid = "RO1" THEN "" ELSE "@other")
                                             \o (IF Len(ds) > 1 THEN "," ELSE "") \o KindsStr(Tail(ds))
-CollSig(ev) == "[" \o KindsStr(SortByMid(ev.docs)) \o "]/allow=" \o ToString(ev.allow)
+CollSig(ev) == "[" \o (IF Len(ev.docs) > 9 THEN "bulk" \o ToString(Len(ev.docs)) ELSE KindsStr(SortByMid(ev.docs))) \o "]/allow=" \o ToString(ev.allow)
                \o "/strict=" \o ToString(ev.strict) \o "/" \o ev.flags
 
 TInit == l = 1
